@@ -214,7 +214,14 @@ def _strip(r):
 def _absorb_state(system, st, d, r, path):
     if "harness_error" in r:
         raise HarnessError(r["harness_error"])
-    st.evaluations += 1
+    st.evaluations += 1 + r.get("extra_evaluations", 0)
+    # a worker may run an inner exhaustive enumeration (all variants of one case) and report its size
+    st.states += r.get("extra_states", 0)
+    st.transitions += r.get("extra_transitions", 0)
+    st.traces += r.get("extra_transitions", 0) + r.get("extra_states", 0)
+    for c in r.get("extra_classes", ()):
+        st.classes.add(c)
+        st.nontrivial_classes.add(c)
     st.classes.add(r["cls"])
     if r.get("nontrivial", True) and not r.get("outdom"):
         st.nontrivial_classes.add(r["cls"])
